@@ -5,7 +5,7 @@
  */
 
 use core::slice;
-use std::io::{Read, Seek, SeekFrom, Write};
+use std::io::{IoSlice, IoSliceMut, Read, Seek, SeekFrom, Write};
 
 use maligned::{Alignment, A16};
 use mem_dbg::{MemDbg, MemSize};
@@ -116,6 +116,20 @@ impl<T: Alignment> Read for AlignedCursor<T> {
         Ok(to_copy)
     }
 
+    fn read_vectored(&mut self, bufs: &mut [IoSliceMut<'_>]) -> std::io::Result<usize> {
+        // As in std::io::Cursor, the buffers are filled one after the
+        // other (the provided method fills just the first nonempty one).
+        let mut read = 0;
+        for buf in bufs {
+            let n = self.read(buf)?;
+            read += n;
+            if n < buf.len() {
+                break;
+            }
+        }
+        Ok(read)
+    }
+
     fn read_exact(&mut self, buf: &mut [u8]) -> std::io::Result<()> {
         if buf.is_empty() {
             return Ok(());
@@ -172,6 +186,17 @@ impl<T: Alignment> Write for AlignedCursor<T> {
         self.pos += len;
         self.len = self.len.max(self.pos);
         Ok(len)
+    }
+
+    fn write_vectored(&mut self, bufs: &[IoSlice<'_>]) -> std::io::Result<usize> {
+        // As in std::io::Cursor, all the buffers are written (the provided
+        // method writes just the first nonempty one), and the gap up to the
+        // position is filled even when there is nothing to write.
+        let mut written = self.write(&[])?;
+        for buf in bufs {
+            written += self.write(buf)?;
+        }
+        Ok(written)
     }
 
     fn write_all(&mut self, buf: &[u8]) -> std::io::Result<()> {
